@@ -334,10 +334,24 @@ def run_float(ctx, cases):
                 elif st["name"] == "rotate":
                     motl.apply_rotation(Rotation.from_matrix(geo.zxz_matrix(*st["ang"])))
                 else:
+                    single = list(case["dims"][1] if 1 in case["dims"] else case["dims"]["1"])
+                    # file form: ONE path for the whole run, rewritten before every call with this history's numbers -
+                    # a call must read the file it is given now (the thickness differs from history to history)
+                    shared = os.path.join(ctx.workdir, "dimensions.txt")
                     if st["kind"] == "none":
                         motl.flip_handedness()
                     elif st["kind"] == "single":
-                        motl.flip_handedness(list(case["dims"][1] if 1 in case["dims"] else case["dims"]["1"]))
+                        if (case["id"] + si) % 3 == 2:
+                            with open(shared, "w") as fh:
+                                fh.write(" ".join(repr(float(v)) for v in single) + "\n")
+                            motl.flip_handedness(shared)
+                        else:
+                            motl.flip_handedness(single)
+                    elif (case["id"] + si) % 3 == 2:
+                        with open(shared, "w") as fh:
+                            for r in drows:
+                                fh.write(" ".join(repr(float(v)) for v in r) + "\n")
+                        motl.flip_handedness(shared)
                     elif si % 2:
                         motl.flip_handedness(dims_table)
                     else:
